@@ -588,7 +588,11 @@ func (g *Gen) applyContract(fr *Frame, st *State, site ssa.Instruction, fc *Func
 			if cond != "" {
 				branch = st.Clone()
 			}
-			g.invokeClosure(fr, branch, fv.Clo, as, guard)
+			ires := g.invokeClosure(fr, branch, fv.Clo, as, guard)
+			if stp.As != "" && cond == "" && len(ires) > 0 {
+				vars[stp.As] = ires[0]
+				env.vars = vars
+			}
 			if cond != "" {
 				merged := g.merge([]*State{branch, st}, []string{cond, sNot(cond)})
 				*st = *merged
